@@ -112,6 +112,14 @@ class History:
                     d[(step['pr'], key)] = d.get((step['pr'], key), 0) + 1
         elif op == 'delete_comment':
             mine = [c for c in w.comments(step['pr']) if c[1] != ROBOT]
+            if step.get('holds'):
+                # the hold comments, whoever posted them (the robot account
+                # included: a freeze script may reuse its credentials)
+                import re as _re
+                mine = [c for c in w.comments(step['pr'])
+                        if c[2].strip() in ('@robot wait', '/wait') or
+                        _re.match(r'^@robot( after_pull_request=\S+)+$',
+                                  c[2].strip())]
             if mine:
                 w.delete_comment(mine[step['nth'] % len(mine)][0])
         elif op == 'report':
@@ -481,16 +489,17 @@ class History:
         del self.steps[n:]
 
     def apply_repeat(self, step):
-        """C10: deliver the same event `times` times on the long-lived
-        instance; by the last repetition nothing may change."""
+        """C10: deliver the same event `times` (3) times on the long-lived
+        instance - the evaluation and "at most two more" of the statement -
+        then once more: that further evaluation may change nothing."""
         out = []
-        for i in range(step.get('times', 3)):
+        for i in range(step.get('times', 3) + 1):
             job = self.job_from(step['job'])
             if job is None:
                 return out
             res = self.run(job, dict(step, rep=i))
             out.append(res)
-        if len(out) >= 3:
+        if len(out) >= 4:
             a, b = self.outcome(out[-2]), self.outcome(out[-1])
             # compare state only (status of a no-op may legitimately repeat)
             keys = ('heads', 'tags', 'host')
@@ -498,7 +507,8 @@ class History:
             self.count('repeat_checked')
             if diffs:
                 self.violations.append((
-                    'C10: repeating %s a third time still changed %s: %r'
+                    'C10: after three evaluations of %s a further one still '
+                    'changed %s: %r'
                     % (step['job'], diffs,
                        _short(a[diffs[0]], b[diffs[0]])),
                     {'monitor': 'C10', 'clause': 'no_convergence',
